@@ -428,6 +428,76 @@ def misc(rep, tier):
                             ",".join(map(str, params)), s1, j, s2, k),
                             "first generator dropped after %d items and finalised after %d items of the second run: second run gives %r, a fresh "
                             "tokenizer %r" % (j, k, got, fresh), {"kind": "misc"})
+    # ... including from INSIDE the second run: the old generator is closed while the tokenizer waits for its k-th frame
+    class FinalisingSrc(Src):
+        __slots__ = ("victim", "at")
+
+        def read(self):
+            if self.victim is not None and self.i == self.at:
+                v, self.victim = self.victim, None
+                v.close()
+            return Src.read(self)
+
+    for params in [(1, 3, 1, 0, 0, 0), (2, 4, 2, 0, 0, 4), (2, 8, 2, 0, 0, 0), (2, 3, 1, 2, 1, 0)]:
+        for s1, s2 in itertools.product(["AAAAAaA", "aAA"], ["AAAaAAaa", "aAAAAAAAaA", "AAaAAAAaAAA"]):
+            f1 = [(i, c == "A") for i, c in enumerate(s1)]
+            f2 = [(i, c == "A") for i, c in enumerate(s2)]
+            fresh = [(a, b) for _, a, b in ST(_valid_tuple, *params).tokenize(Src(f2))]
+            n1 = len(ST(_valid_tuple, *params).tokenize(Src(f1)))
+            for j in range(n1 + 1):
+                for k in range(len(f2) + 2):
+                    for mode in ("list", "generator"):
+                        rep.add("evaluations")
+                        tok = ST(_valid_tuple, *params)
+                        g1 = tok.tokenize(Src(f1), generator=True)
+                        for _ in range(j):
+                            next(g1, None)
+                        src2 = FinalisingSrc(f2)
+                        src2.victim, src2.at = g1, k
+                        del g1
+                        out = tok.tokenize(src2) if mode == "list" else list(tok.tokenize(src2, generator=True))
+                        got = [(t[1], t[2]) for t in out]
+                        if got != fresh:
+                            rep.violation("abandoned generator finalised inside run tuple=%s first=%s j=%d second=%s at_read=%d %s" % (
+                                ",".join(map(str, params)), s1, j, s2, k, mode),
+                                "first generator dropped after %d items and finalised while the second run (%s mode) waited for frame %d: second run "
+                                "gives %r, a fresh tokenizer %r" % (j, mode, k, got, fresh), {"kind": "misc"})
+    # a split of a recorder abandoned after j regions and finalised only later, while a new split of the rewound recorder runs
+    for p, ki in itertools.product(["aAAaAAAaAa", "AAAAAAAAaa"], range(2)):
+        data = pcm(p)
+        kw = kws[ki]
+        ref_all = None
+        for j in range(0, 3):
+            for k in range(0, 5):
+                rep.add("evaluations")
+                try:
+                    rec = util.Recorder(data, block_dur=0.1, sr=10, sw=2, ch=1)
+                    old = core.split(rec, **kw)
+                    for _ in range(j):
+                        next(old, None)
+                    rec.rewind()
+                    want = [(r.data, r.start) for r in core.split(util.AudioReader(rec.data, block_dur=0.1, sr=10, sw=2, ch=1), **kw)]
+                    rec.rewind()
+                    new = core.split(rec, **kw)
+                    got = []
+                    i = 0
+                    while True:
+                        if i == k:
+                            old.close()
+                        r = next(new, None)
+                        i += 1
+                        if r is None:
+                            break
+                        got.append((r.data, r.start))
+                    if i <= k:
+                        old.close()
+                    msg = None if got == want else "gives starts %r, a fresh reader over the recorded audio %r" % ([x[1] for x in got], [x[1] for x in want])
+                except Exception as exc:
+                    msg = "raised %r" % (exc,)
+                if msg:
+                    rep.violation("recorder split abandoned pattern=%s kw=%d j=%d closed_at=%d" % (p, ki, j, k),
+                                  "first split of a recorder left at %d regions and closed when the second split (after rewind) had yielded %d: second split %s" % (
+                                      j, k, msg), {"kind": "misc"})
     # a region split that was left unfinished must not shorten later splits of the same region object
     for p, kw in itertools.product(["AaAaA", "AAAAaAA", "aAAaAa"], kws[:3]):
         reg = core.AudioRegion(pcm(p), 10, 2, 1)
